@@ -102,13 +102,16 @@ class Unit:
         return cid, text
 
     def generate(self):
-        raw = []
-        for l in open(self.template).read().split('\n'):
-            m = re.match(r'\s*//@\s*fragment\s+(\S+)', l)
-            if m:
-                raw += open(os.path.join(CONTRACTS, '_fragments', m.group(1))).read().split('\n')
-            else:
-                raw.append(l)
+        def expand(lines, depth=0):
+            out_ = []
+            for l in lines:
+                m = re.match(r'\s*//@\s*fragment\s+(\S+)', l)
+                if m and depth < 6:
+                    out_ += expand(open(os.path.join(CONTRACTS, '_fragments', m.group(1))).read().split('\n'), depth + 1)
+                else:
+                    out_.append(l)
+            return out_
+        raw = expand(open(self.template).read().split('\n'))
         ents = parse_directive_lines(raw)
         out = []
         i = 0
